@@ -157,12 +157,55 @@ class C07(core.Check):
                         'isolated_leverage': lev})
         return out
 
+    def long_timeframe_warmup(self, res):
+        """warm-up injection for a timeframe longer than a day (3D), the series starting at midnight of a day that is
+        not a multiple of three days since the epoch — as a session may: jesse counts the windows of every timeframe
+        from the first candle it is given.  What a caller reads after the injection is one candle per started window
+        counted from the first warm-up minute, each the aggregate of its minutes."""
+        import numpy as np
+        from jesse.store import store
+        from jesse.services.candle import inject_warmup_candles_to_store
+        from jesse.config import config as jconfig
+        from jesse.libs import DynamicNumpyArray
+        import jesse.helpers as jh
+        acct.Session('futures', 10_000, 0.0)
+        r = self.rng
+        day = 86_400_000
+        t0 = (18_628 + r.choice([0, 3, 6])) * day            # day index = 1 (mod 3)
+        m = 3 * 1440
+        n = 2 * m + r.choice([0, 1, 77, 1440])
+        rows = engine.gen_candles(r, n)
+        ones = [[t0 + i * M] + list(row) for i, row in enumerate(rows)]
+        saved = jconfig['app']['considering_timeframes']
+        store.candles.init_storage(5000)
+        store.candles.storage[jh.key('Sandbox', 'BTC-USDT', '3D')] = DynamicNumpyArray((10, 6))
+        jconfig['app']['considering_timeframes'] = ('1m', '3D')
+        try:
+            inject_warmup_candles_to_store(np.array(ones, dtype=float), 'Sandbox', 'BTC-USDT')
+            got = [list(map(float, x)) for x in store.candles.get_candles('Sandbox', 'BTC-USDT', '3D')]
+        except Exception as e:  # noqa
+            got = 'raises ' + type(e).__name__
+        finally:
+            jconfig['app']['considering_timeframes'] = saved
+        want = [list(map(float, aggregate(ones[j:j + m]))) for j in range(0, n, m)]
+        res.count('warmup-3D-from-a-day-that-is-no-multiple-of-three')
+        res.seen(('warm3D', t0, n), True)
+        ok = got != [] and not isinstance(got, str) and len(got) == len(want) and all(
+            all(abs(a - b) <= 1e-9 * max(1.0, abs(b)) for a, b in zip(g, w)) for g, w in zip(got, want))
+        if not ok:
+            res.fail(**{'class': 'candles/warmup-injection/long-timeframe',
+                        'input': {'timeframe': '3D', 'first_minute': t0, 'minutes': n, 'candle_seed': 'see seed'},
+                        'observed': got if isinstance(got, str) else [g[0] for g in got],
+                        'expected': [w[0] for w in want],
+                        'params': {'timeframe': '3D'}})
+
     def oracle(self, res, boost):
         jesse_env.setup()
         import random
         import numpy as np
         from jesse.store import store
         from jesse.services.candle import _get_generated_candles
+        self.long_timeframe_warmup(res)
         for sess in self.sessions(boost):
             rr = random.Random(sess['seed'])
             t0 = bt.T0_aligned()
